@@ -11,6 +11,10 @@
 (*   D def named v      X del                   U use (load)               *)
 (*   G global decl      N nonlocal decl         (Gi, Ni: inside an if)     *)
 (*   comprehensions: U element use, I iterable use, T target               *)
+(*   H  use in the HEADER of the nested scope (the default value of a      *)
+(*      keyword-only parameter: def s(p, *, k=v) / lambda p, *, k=v; a class     *)
+(*      keyword: class s(kw=v)): evaluated by, and therefore a use of,     *)
+(*      the ENCLOSING scope                                                *)
 (* The module defines, by the rules of the language reference (4.2.2       *)
 (* "Resolution of names", 7.12/7.13 global/nonlocal), which chains are     *)
 (* legal programs and, for every function scope, how CPython's compiler    *)
@@ -39,8 +43,13 @@ ClsOcc == { {}, {"U"}, {"B"}, {"B", "U"}, {"D"}, {"G", "B"}, {"N", "B"}, {"N", "
 \* excepted by the property (and its classification depends on PEP 709 inlining); with T and I together the iterable is
 \* evaluated in the enclosing scope BEFORE the target is bound, so v is a use of the enclosing scope.
 CmpOcc == { {}, {"U"}, {"I"}, {"T", "I"} }
+HdrFun == { {"H"}, {"H", "U"}, {"H", "B"}, {"H", "P"} }
+HdrLam == { {"H"}, {"H", "U"} }
+HdrCls == { {"H"}, {"H", "B"}, {"H", "U"} }
 OccOf(k) == CASE k = "function" -> FunOcc [] k = "lambda" -> LamOcc [] k = "class" -> ClsOcc
               [] k = "comprehension" -> CmpOcc [] OTHER -> {{}}
+\* nested scopes may in addition use v in their header
+OccOfNested(k) == OccOf(k) \cup (CASE k = "function" -> HdrFun [] k = "lambda" -> HdrLam [] k = "class" -> HdrCls [] OTHER -> {})
 
 VARIABLES K, O
 vars == <<K, O>>
@@ -49,7 +58,7 @@ Init == /\ K \in {<<"function", k2, k3>> : k2 \in Kinds2, k3 \in Kinds3}
         /\ (K[2] \in {"none", "comprehension"} => K[3] = "none")
         /\ (K[2] = "lambda" => K[3] \notin {"function", "comprehension"})   \* a def cannot be nested in a lambda
         /\ (K[2] = "class" => K[3] # "comprehension")
-        /\ O \in {<<o1, o2, o3>> : o1 \in OccOf(K[1]), o2 \in OccOf(K[2]), o3 \in OccOf(K[3])}
+        /\ O \in {<<o1, o2, o3>> : o1 \in OccOf(K[1]), o2 \in OccOfNested(K[2]), o3 \in OccOfNested(K[3])}
 Next == UNCHANGED vars
 Spec == Init /\ [][Next]_vars
 
@@ -58,8 +67,9 @@ FunLike(i) == K[i] \in {"function", "lambda"}
 (* PEP 709 (Python 3.12): list comprehensions are inlined; the occurrences of a comprehension nested directly in *)
 (* scope i belong to scope i's symbol table (its target T becomes a local of i, its uses are uses of i).        *)
 CompUse(o) == IF o \cap {"U", "I"} # {} THEN {"U"} ELSE {}
-Occ(i) == IF i < 3 /\ K[i + 1] = "comprehension" THEN O[i] \cup CompUse(O[i + 1])
-          ELSE IF K[i] = "comprehension" THEN {} ELSE O[i]
+HeaderUse(i) == IF i < 3 /\ "H" \in O[i + 1] THEN {"U"} ELSE {}
+Occ(i) == IF i < 3 /\ K[i + 1] = "comprehension" THEN (O[i] \ {"H"}) \cup CompUse(O[i + 1])
+          ELSE IF K[i] = "comprehension" THEN {} ELSE (O[i] \ {"H"}) \cup HeaderUse(i)
 
 DeclG(i) == Occ(i) \cap {"G", "Gi"} # {}
 DeclN(i) == Occ(i) \cap {"N", "Ni"} # {}
